@@ -20,7 +20,11 @@ EXTENDS TopicCore, FiniteSets
 
 Live(S, t) == S.topics[t].exists
 EffOwners(S, t) == {u \in Users : S.subs[t][u].st = "live" /\ "O" \in Eff(S.subs[t][u])}
-Actor(a) == IF "s" \in DOMAIN a THEN SessUser[a.s] ELSE ""
+\* the user a request acts as: the session's user, or the user named in extra.obo (root sessions only)
+Actor(a) == IF "obo" \in DOMAIN a /\ a.obo # "" THEN a.obo ELSE IF "s" \in DOMAIN a THEN SessUser[a.s] ELSE ""
+P2PTopics == Topics \ GrpTopics
+\* the two participants of p2p topic "pXY" are given by the constant P2PUsers[t]
+CONSTANT P2PUsers
 IsReq(a) == "s" \in DOMAIN a /\ "t" \in DOMAIN a /\ a.t \in Topics
 Accepted(obs) == obs.code >= 200 /\ obs.code < 300
 
@@ -56,14 +60,18 @@ M_C06(pre, a, obs, post) ==
             \cup If(\A u \in Users : ("O" \in M(post.subs[t][u].given) /\ "O" \notin M(pre.subs[t][u].given)) => actor = o \/ u = actor,
                     "OnlyOwnerGrantsOwnership")
           ELSE {})
-    : tt \in Topics }
+    : tt \in GrpTopics }
 
 \* ------------------------------------------------------------------ C03: only writers publish; rejects have no effect
 StoreOf(S) == [topics |-> S.topics, subs |-> S.subs, msgs |-> S.msgs]
 M_C03(pre, a, obs, post) ==
   IF ~(IsReq(a) /\ a.a = "Pub") THEN {} ELSE
-  LET t == a.t  s == a.s
-      writable == Writable(pre, t, s) /\ Live(pre, t) IN
+  LET t == a.t  s == a.s  u == Actor(a)
+      \* attached, and the author is currently subscribed with W in both the requested and the granted mode
+      writable == /\ t \in M(pre.sess[s].subs)
+                  /\ Live(pre, t)
+                  /\ pre.subs[t][u].st = "live"
+                  /\ "W" \in Eff(pre.subs[t][u]) IN
   If(Accepted(obs) <=> writable, "AcceptedIffAttachedWriter")
   \cup If(~Accepted(obs) => obs.code >= 400, "RejectedPublishGetsErrorReply")
   \cup If(~Accepted(obs) => StoreOf(post) = StoreOf(pre) /\ post.cache = pre.cache, "RejectedPublishChangesNothing")
@@ -80,7 +88,7 @@ M_C01(pre, a, obs, post) ==
      If(obs.ackSeq = MaxSeqOf(pre, t) + 1 \/ (obs.afterCrash /\ obs.ackSeq > MaxSeqOf(pre, t)), "AckIsNextNumber")
      \cup If(\A d \in obs.data : d.seq = obs.ackSeq, "RecipientsSeeTheAckedNumber")
      \cup If(post.topics[t].seq = obs.ackSeq /\ (post.cache[t].loaded => post.cache[t].last = obs.ackSeq), "CountersAtAckedNumber")
-     \cup If(\E i \in DOMAIN post.msgs[t] : post.msgs[t][i].seq = obs.ackSeq /\ post.msgs[t][i].content = a.c /\ post.msgs[t][i].from = SessUser[a.s],
+     \cup If(\E i \in DOMAIN post.msgs[t] : post.msgs[t][i].seq = obs.ackSeq /\ post.msgs[t][i].content = a.c /\ post.msgs[t][i].from = Actor(a),
              "StoredUnderAckedNumber")
    ELSE {})
   \cup UNION { LET t == tt IN
@@ -96,11 +104,14 @@ M_C02(pre, a, obs, post) ==
       readers == {x.s : x \in {y \in AttOf(c) : y.chan \/ "R" \in Eff(c.per[y.u])}}
       expect == readers \ (IF a.noecho THEN {s} ELSE {})
       \* permissions as the live topic holds them (that they equal the stored ones is C08's clause, not this one's)
-      pushExpect == {v \in Users : c.per[v].in /\ ~c.per[v].deleted /\ ~c.per[v].ischan /\ {"P", "R"} \subseteq Eff(c.per[v])}
+      pushExpect == IF ~c.loaded THEN {} ELSE
+                    {v \in Users : c.per[v].in /\ ~c.per[v].deleted /\ ~c.per[v].ischan /\ {"P", "R"} \subseteq Eff(c.per[v])}
   IN
-  If({d.s : d \in obs.data} = expect, "ExactlyTheAttachedReaders")
+  If(c.loaded, "AcceptedPublishNeedsLiveTopic")
+  \cup If({d.s : d \in obs.data} = expect, "ExactlyTheAttachedReaders")
   \cup If(\A x \in Sessions : obs.ndata[x] <= 1, "OneCopyEach")
-  \cup If(\A d \in obs.data : d.content = a.c /\ d.from = SessUser[s] /\ d.seq = obs.ackSeq, "CopyUnaltered")
+  \cup If(\A d \in obs.data : d.content = a.c /\ d.from = Actor(a) /\ d.seq = obs.ackSeq, "CopyUnaltered")
+  \cup If(\A d \in obs.data : d.topic = t, "TopicNamedAsTheRecipientAddressesIt")
   \cup If(obs.push = {pushExpect} \/ (pushExpect = {} /\ obs.push \subseteq {{}}), "PushToReadersWithPresence")
 
 \* ------------------------------------------------------------------ C07: who may change permissions
@@ -133,7 +144,17 @@ M_C07(pre, a, obs, post) ==
       : uu \in Users }
     \cup If(Live(post, t) => Cardinality({u \in Users : post.subs[t][u].st = "live"}) <= MaxSubs, "SubscriberLimit")
     \cup If(post.cache[t].loaded => \A x \in AttOf(post.cache[t]) : x.chan \/ "J" \in M(post.cache[t].per[x.u].given), "NoAttachWithoutJoinGrant")
-    : tt \in Topics }
+    : tt \in GrpTopics }
+  \cup UNION {
+    LET t == tt IN
+    \* a p2p topic never has a third participant; its modes never exceed JRWPA and always keep A
+    If(\A u \in Users : post.subs[t][u].st # "none" /\ pre.subs[t][u].st = "none" => u \in P2PUsers[t], "P2PNoThirdParticipant")
+    \cup If(\A u \in Users : post.subs[t][u].st = "live" /\ (pre.subs[t][u] # post.subs[t][u]) =>
+               M(post.subs[t][u].want) \subseteq CP2P /\ M(post.subs[t][u].given) \subseteq CP2P, "P2PModesWithinJRWPA")
+    \cup If(\A u \in Users : post.subs[t][u].st = "live" /\ (pre.subs[t][u] # post.subs[t][u]) /\ post.subs[t][u].given # <<>> =>
+               "A" \in M(post.subs[t][u].given), "P2PKeepsApprove")
+    \cup If(post.cache[t].loaded => \A x \in AttOf(post.cache[t]) : x.u \in P2PUsers[t] /\ "J" \in M(post.cache[t].per[x.u].given), "P2PNoAttachWithoutJoinGrant")
+    : tt \in P2PTopics }
 
 \* ------------------------------------------------------------------ C08: live state = stored state
 \* every cached field equals what a reload would compute from the rows; reported at the step that BREAKS it
@@ -143,7 +164,7 @@ Incons(S, t) ==
     If(c.last = S.topics[t].seq, "LastIdStored")
     \cup If(c.del = S.topics[t].delId, "DelIdStored")
     \cup If(c.auth = S.topics[t].auth /\ c.anon = S.topics[t].anon, "DefaultAccessStored")
-    \cup If(\A u \in Users : c.per[u].in <=> S.subs[t][u].st = "live", "SubscribersStored")
+    \cup If(\A u \in Users : (c.per[u].in /\ ~c.per[u].deleted) <=> S.subs[t][u].st = "live", "SubscribersStored")
     \cup If(\A u \in Users : c.per[u].in /\ S.subs[t][u].st = "live" => c.per[u].want = S.subs[t][u].want /\ c.per[u].given = S.subs[t][u].given, "PermissionsStored")
     \cup If(\A u \in Users : c.per[u].in /\ S.subs[t][u].st = "live" /\ "R" \in Eff(c.per[u]) =>
                c.per[u].read = S.subs[t][u].read /\ c.per[u].recv = S.subs[t][u].recv, "MarksStored")
@@ -243,10 +264,28 @@ M_C04(pre, a, obs, post) ==
         \cup If(~(attached /\ "R" \in mode) \/ expect = {} => got = {}, "NoDeletionLogWithoutReadOrDeletions")
   ELSE {}
 
+\* ------------------------------------------------------------------ C05 (history part): a party that tracks permissions from the
+\* change notices it receives ends up with what the authoritative topic holds: every {pres what=acs} seen inside a group topic,
+\* applied to the subject's permissions as the live topic held them BEFORE the step, yields what it holds AFTER the step.
+M_C05(pre, a, obs, post) ==
+  UNION {
+    LET f == ff
+        t == f.t
+        subj == IF f.src \in Users THEN f.src ELSE SessUser[f.s] IN
+    IF ~(pre.cache[t].loaded /\ post.cache[t].loaded) \/ subj \notin Users THEN {}
+    ELSE LET p0 == pre.cache[t].per[subj]  p1 == post.cache[t].per[subj]
+             w == ApplyMutation(IF p0.in THEN M(p0.want) ELSE None, IF f.want = <<"-">> THEN <<>> ELSE f.want)
+             g == ApplyMutation(IF p0.in THEN M(p0.given) ELSE None, IF f.given = <<"-">> THEN <<>> ELSE f.given)
+         IN IF ~p1.in THEN {}      \* subscription removed: the notice says N/N, nothing left to track
+            ELSE If(w.ok /\ g.ok, "NoticeIsWellFormed")
+                 \cup If(w.m = M(p1.want) /\ g.m = M(p1.given), "FollowerOfNoticesMatchesTopic")
+    : ff \in obs.acs }
+
 Monitors(p, pre, a, obs, post) ==
   CASE p = "C01" -> M_C01(pre, a, obs, post)
     [] p = "C02" -> M_C02(pre, a, obs, post)
     [] p = "C03" -> M_C03(pre, a, obs, post)
+    [] p = "C05" -> M_C05(pre, a, obs, post)
     [] p = "C04" -> M_C04(pre, a, obs, post)
     [] p = "C06" -> M_C06(pre, a, obs, post)
     [] p = "C07" -> M_C07(pre, a, obs, post)
